@@ -405,6 +405,26 @@ pub fn c17(tier: &str) -> ! {
     });
     let only = std::env::var("RDBCHECK_ONLY").ok();
     let progs: Vec<P17> = programs().into_iter().filter(|p| only.as_ref().map(|o| p.name.contains(o.as_str())).unwrap_or(true)).collect();
+    if let Some(req) = crate::report::replay_request("c17") {
+        let want = req["artefact"]["program"].as_str().unwrap_or("");
+        if let Some(p) = progs.iter().find(|p| p.name == want) {
+            let len = req["artefact"]["schedule_len"].as_u64().unwrap_or(0) as usize;
+            let mut choices = vec![0usize; len];
+            if let Some(devs) = req["artefact"]["deviations"].as_array() {
+                for d in devs {
+                    let i = d[0].as_u64().unwrap_or(0) as usize;
+                    if i < len {
+                        choices[i] = d[1].as_u64().unwrap_or(0) as usize;
+                    }
+                }
+            }
+            let r = replay(p, &choices);
+            crate::report::replay_done(match r.as_deref() {
+                Some("none") | None => None,
+                Some(c) => Some((c.to_string(), "see the recorded history in the replay file".to_string())),
+            });
+        }
+    }
     let t0 = Instant::now();
     parking_lot::verif_rt::set_named_level(0);
     let shm = Arc::new(Shm::new(1 << 10, 16 << 20));
